@@ -230,6 +230,84 @@ type Universe struct {
 	NodeType map[string]string   `json:"nodeType"`
 	Data     map[string]ValMap   `json:"data"`
 	Roots    map[string]string   `json:"roots"`
+	Silent   []string            `json:"silent,omitempty"` // types read without resolver calls by reflection: their calls are never compared
+}
+
+// IsSilent reports whether the node's type is one whose resolver calls are not logged / compared.
+func (u *Universe) IsSilent(node string) bool {
+	for _, s := range u.Silent {
+		if u.NodeType[node] == s {
+			return true
+		}
+	}
+	return false
+}
+
+// DropSilent removes the calls on silent nodes from a prescribed call sequence.
+func (u *Universe) DropSilent(calls []Call) []Call {
+	if len(u.Silent) == 0 {
+		return calls
+	}
+	out := calls[:0:0]
+	for _, c := range calls {
+		if !u.IsSilent(c.Node) {
+			out = append(out, c)
+		}
+	}
+	return out
+}
+
+func touchesSilent(u *Universe, v Value) bool {
+	switch v.K {
+	case "node":
+		return u.IsSilent(v.S)
+	case "list":
+		for _, e := range v.L {
+			if touchesSilent(u, e) {
+				return true
+			}
+		}
+	}
+	return false
+}
+
+// WithoutSilent is the universe the random document generator draws from: without the silent types and
+// without the fields that lead to their nodes (the judge prescribes calls for them that are never logged).
+func (u *Universe) WithoutSilent() *Universe {
+	if len(u.Silent) == 0 {
+		return u
+	}
+	silent := map[string]bool{}
+	for _, s := range u.Silent {
+		silent[s] = true
+	}
+	out := &Universe{Types: map[string]*TypeDef{}, NodeType: u.NodeType, Data: u.Data, Roots: u.Roots}
+	for tn, td := range u.Types {
+		if silent[tn] {
+			continue
+		}
+		cp := *td
+		cp.Fields = FieldMap{}
+		for fn, fd := range td.Fields {
+			drop := silent[fd.Type.Base()]
+			for node, nt := range u.NodeType {
+				if nt == tn && touchesSilent(u, u.Data[node][fn]) {
+					drop = true
+				}
+			}
+			if !drop {
+				cp.Fields[fn] = fd
+			}
+		}
+		cp.Members = nil
+		for _, m := range td.Members {
+			if !silent[m] {
+				cp.Members = append(cp.Members, m)
+			}
+		}
+		out.Types[tn] = &cp
+	}
+	return out
 }
 
 // ---------------------------------------------------------------- documents
